@@ -59,11 +59,11 @@ CHECKS = {
  "C15": dict(
    text="Field-name mode with a symbolic configured prefix (solver explores equal / prefix / unrelated): when active every user key in the positions the property names equals the documented pseudonym, no such name "
         "remains in any output segment, sibling counts/order are kept and values equal the flag-off run; when inactive the whole output equals the flag-off run. "
-        "Plan summary: lines whose planSummary names the filter's fields (IXSCAN single / compound / OR / dotted / with _id / EXPRESS_IXSCAN, COLLSCAN, IDHACK) are run with the names as symbolic strings over [A-Za-z0-9_]+ of any length; "
+        "Plan summary: lines whose planSummary names the filter's fields (IXSCAN single / compound / OR / dotted / with _id / EXPRESS_IXSCAN, COUNT_SCAN, DISTINCT_SCAN, COLLSCAN, IDHACK) are run with the names as symbolic strings over [A-Za-z0-9_]+ of any length; "
         "the real regexp scan (leftmost-first matcher over constants and class-constrained atoms), Split / TrimSpace / Replace run on the rope and the solver shows the emitted summary equals the input with each key replaced by the pseudonym the same name gets in the filter.",
    note="Bounds: find/update/delete/insert/findAndModify/aggregate templates of the corpus, single-component names. Sibling-count obligations whose only models need a SHA-256 prefix collision are reported as not reproduced (collision-freeness is outside). "
         "A spread of the corpus and all plan-summary jobs also run with --redactNamespaces symbolic (both flags together). Plan-summary bounds: index-key names are non-empty words over [A-Za-z0-9_]; a regexp step whose outcome would depend on a name's content aborts the path as inconclusive; "
-        "with a text-wide ReplaceAll in the code, occurrences of a name inside constants / other names / pseudonyms are found by solver-decided case splits (at most one occurrence per foreign stretch explored). COUNT_SCAN / DISTINCT_SCAN summaries are not in the corpus.",
+        "with a text-wide ReplaceAll in the code, occurrences of a name inside constants / other names / pseudonyms are found by solver-decided case splits (at most one occurrence per foreign stretch explored).",
    ref="6/C15"),
  "C19": dict(
    text="The emitted rope of the first pass is re-tokenised (decoder contract) and fed through the real redactor again with the same symbolic flags; the solver shows second output == first output on every path.",
